@@ -941,6 +941,7 @@ F31 = 'F31-chained-assignment-rhs-reads-last-target'
 F32 = 'F32-same-width-ext-trunc-of-compound'
 F33 = 'F33-folded-constant-recomputed-narrow'
 F34 = 'F34-loop-variable-named-like-global'
+D1 = 'D1-descending-loop-variable-as-value'
 F38 = 'F38-bool-constant-attribute'
 F39 = 'F39-if-expression-loop-bound'
 F35 = 'F35-chained-assignment-sole-body-without-begin-end'
@@ -961,6 +962,7 @@ FIXED_STREAMS = {
   F29: ('verilog', 'yosys'),
   F31: ('verilog', 'yosys'), F32: ('verilog', 'yosys'), F33: ('verilog', 'yosys'), F34: ('verilog', 'yosys'),
   F38: ('verilog', 'yosys'), F39: ('verilog', 'yosys'),
+  D1: ('verilog',),       # directed (not a repaired defect): descending loops whose variable is used as a VALUE of its own width (seeded C03-2); yosys rejects negative steps
 }
 
 def _hdr(): return ['from pymtl3 import *', '']
@@ -1032,12 +1034,16 @@ def gen_finding(rng, be, fid):
           'class Top( Component ):', '  def construct( s ):', f'    s.a = InPort( Bits{w} )', f'    s.o = [ OutPort( Bits{w} ) for _ in range(2) ]',
           f'    s.c = [ Inc( {k[0]} ), Inc( {k[1]} ) ]', '    for i in range(2):', '      s.c[i].in_ //= s.a', '      s.o[i] //= s.c[i].out']
   elif fid == F16:
-    variant = rng.choice(['trunc', 'reduce', 'cast', 'const', 'partsel', 'loopvar'])
+    variant = rng.choice(['trunc', 'reduce', 'cast', 'const', 'partsel', 'loopvar', 'sum', 'sum'])
     W = w + rng.choice([1, 4, 8])
     L += ['class Top( Component ):', '  def construct( s ):', f'    s.a = InPort( Bits{W} )', '    s.sel = InPort( Bits1 )', f'    s.o = OutPort( Bits{W + 4} )']
     if variant == 'trunc': body = [f'      s.o @= sext( trunc( s.a, {w} ), {W + 4} )']
     elif variant == 'reduce': body = [f"      s.o @= sext( reduce_{rng.choice(['and', 'or', 'xor'])}( s.a ), {W + 4} )"]
     elif variant == 'cast': body = [f'      s.o @= sext( Bits{W}( s.a ), {W + 4} )']
+    elif variant == 'sum':
+      # an operand with a context-determined operator: its carry / inverted upper bits must not reach the sign test (seeded C03-4)
+      e = rng.choice([f's.a + {rng.randint(1, (1 << W) - 1)}', 's.a + s.a', f's.a - {rng.randint(1, (1 << W) - 1)}', '~s.a', f's.a << {rng.randint(1, W - 1)}', f"( s.a + {rng.randint(1, (1 << W) - 1)} ) if s.sel else ( ~s.a )"])
+      body = [f'      s.o @= sext( {e}, {W + 4} )']
     elif variant == 'const':
       L.insert(-4, ''); L += [f'    s.KB = Bits{w}({rng.getrandbits(w)})']
       body = [f'      s.o @= sext( s.KB, {W + 4} ) + zext( s.a, {W + 4} )']
@@ -1155,6 +1161,15 @@ def gen_finding(rng, be, fid):
     lo = rng.randint(0, W - 2); hi = rng.randint(lo + 1, W)
     L += ['class Top( Component ):', '  def construct( s ):', f'    s.a = InPort( Bits{W} )', f'    s.b = InPort( Bits{W} )', f'    s.r = OutPort( Bits{W} )',
           '    @update_ff', '    def ff():', f"      t = s.a {rng.choice('|^+')} s.b", f'      t[{lo}:{hi}] = s.b[0:{hi - lo}]', '      s.r <<= t']
+  elif fid == D1:
+    W = rng.choice([4, 5, 6, 7, 8]); M = (W - 1).bit_length()
+    step = rng.choice([1, 1, 2])
+    start = W - 1 if step == 1 else ((W - 1) // 2) * 2        # lands on the stop value 0 exactly (otherwise: known finding F17)
+    use = rng.choice(['zext', 'concat', 'add'])
+    val = {'zext': f'zext( Bits{M}( i ), {M + 2} )', 'concat': f'concat( Bits2( {rng.randint(0, 3)} ), Bits{M}( i ) )', 'add': f'zext( Bits{M}( i ) + {rng.randint(1, 3)}, {M + 2} )'}[use]
+    L += ['class Top( Component ):', '  def construct( s ):', f'    s.a = InPort( Bits{W} )', f'    s.sel = InPort( Bits{M} )', f'    s.o = OutPort( Bits{W} )', f'    s.o2 = OutPort( Bits{M + 2} )',
+          '    @update', '    def up():', '      s.o @= 0', '      s.o2 @= 0', f'      for i in range({start}, 0, -{step}):',
+          f"        s.o[i] @= s.a[i] ^ ( Bits{M}( i ) {rng.choice(['==', '<', '>='])} s.sel )", f'        if s.sel == Bits{M}( i ):', f'          s.o2 @= {val}']
   elif fid == F38:
     fl = [rng.random() < 0.5 for _ in range(3)]
     W = rng.choice([4, 8])
